@@ -456,7 +456,16 @@ def graph_edges_rule(A: Analysis, col: Collector, rule: str):
         over_fields = any(isinstance(l.iter, ast.Call) and (dotted(l.iter.func) or "").endswith("get_fields") for l in loops)
         over_nodes = any(isinstance(l.iter, ast.Name) and l.iter.id == "nodes" for l in loops)
         lazy_guard = any("LazyOutField" in norm(i.test) and "isinstance" in norm(i.test) for i in conds)
-        other = [norm(i.test, 60) for i in conds if "LazyOutField" not in norm(i.test) and "not in graph.edges" not in norm(i.test)]
+        other = []
+        for i in conds:
+            conj = i.test.values if isinstance(i.test, ast.BoolOp) and isinstance(i.test.op, ast.And) else [i.test]
+            for cj in conj:
+                t_ = norm(cj, 80)
+                if "LazyOutField" in t_ and "isinstance" in t_:
+                    continue
+                if t_.endswith("not in graph.edges"):
+                    continue
+                other.append(t_)
         if over_fields and over_nodes and lazy_guard and not other:
             col.ok(rule, "_create_graph adds an edge for every field of every node whose value is a LazyOutField (only guard: edge not yet present)", A.loc(c))
         else:
